@@ -20,14 +20,13 @@ theorem poll_sites_covered :
     cancelPollSites = ["mod.rs:propagate#1", "cache.rs:get_or_cache_candidates#1", "cache.rs:get_or_cache_dependencies#1"] := by decide
 
 /-- the places that iterate a hash container: `simplify`'s `maybe_merge.into_values()` (result is a map
-    keyed by solvable id, so the order is irrelevant) and the snapshot capture (union members / matching
-    sets are stored as sets) — the model has no other place where hash order could leak -/
+    keyed by solvable id, so the order is irrelevant) and the snapshot capture (matching sets are stored as
+    sets; since b972046 union members are a `Vec` in the provider's order) — the model has no other place
+    where hash order could leak -/
 theorem hash_iteration_sites_covered :
-    hashIterationSites = ["conflict.rs:simplify:maybe_merge#1", "snapshot.rs:from_provider_async:version_sets#1",
-      "snapshot.rs:from_provider_async:version_sets#2", "snapshot.rs:from_provider_async:matching_candidates#1",
-      "snapshot.rs:from_provider_async:matching_candidates#2",
-      -- (a sorted `Vec` built from the set: order-independent by construction)
-      "snapshot.rs:version_sets_in_union:version_sets#1"] := by decide
+    hashIterationSites = ["conflict.rs:simplify:maybe_merge#1",
+      "snapshot.rs:from_provider_async:matching_candidates#1",
+      "snapshot.rs:from_provider_async:matching_candidates#2"] := by decide
 
 /-- Rust `VectorHeader` and C++ `Header` have the same fields in the same order -/
 theorem vector_header_agrees : vectorHeaderRust = vectorHeaderCpp ∧ vectorHeaderRust = ["refcount", "size", "capacity"] := by decide
